@@ -32,14 +32,28 @@ KNOBS = {'stagger': [0.0, 1.0, 4.0, 30.0, 60.0], 'n_min': 1, 'n_max': 4,
          'n_actions': [0, 1, 2, 3, 4], 'closing_p': 0.6, 'fence': 'false'}
 
 
+# an additional family: processes that never stop (or only when killed after a long stopwaitsecs) are asked to stop, an
+# instance is restarted meanwhile (ELECTION: the stop jobs in progress are aborted) and Supvisors is then restarted /
+# shut down while they are still STOPPING - the closing plan has to wait for them too
+STUCK_KNOBS = {'stagger': [0.0, 1.0], 'n_min': 2, 'n_max': 4,
+               'apps': {'n_apps': (2, 3), 'n_progs': (1, 3), 'seq_max': 3, 'startsecs': (0, 2), 'stopwaitsecs': (20, 60),
+                        'per_instance_diff': 0.0, 'managed_p': 1.0, 'autorestart': ('false',)},
+               'behaviours': ['immortal', 'immortal', 'stubborn', 'normal'],
+               'actions': ['stop_application', 'stop_application', 'restart', 'stop_process'],
+               'n_actions': [2, 3, 4], 'gaps': [2.0, 5.0, 12.0], 'closing_p': 1.0, 'fence': 'false', 'early_p': 0.0,
+               'settle_ticks': 30, 'closing_ticks': 300}
+STUCK_COUNT = {'quick': 240, 'thorough': 4000}
+
+
 def plan(tier, seed):
-    return [{'seed': seed * 1000003 + i} for i in range(COUNT[tier])]
+    return [{'seed': seed * 1000003 + i} for i in range(COUNT[tier])] + \
+        [{'seed': seed * 1000003 + 700000 + i, 'family': 'stuck-stopping'} for i in range(STUCK_COUNT[tier])]
 
 
 def run_case(case):
     tracker = Tracker()
     mon = StopSequenceMonitor(tracker)
-    run = Run(case, KNOBS, [tracker, mon])
+    run = Run(case, STUCK_KNOBS if case.get('family') == 'stuck-stopping' else KNOBS, [tracker, mon])
     violations = run.execute()
     nontrivial = mon.counters.get('order_comparisons', 0) > 0 or mon.counters.get('closing_runs', 0) > 0
     return {'violations': violations, 'counters': run.counters,
